@@ -7,6 +7,7 @@ import (
 	"fmt"
 	"os"
 	"path/filepath"
+	"strings"
 
 	"github.com/foxboron/go-uefi/efi/attr"
 	"github.com/foxboron/go-uefi/efi/attributes"
@@ -18,8 +19,8 @@ import (
 
 // c11RealFS exercises the one part of the write path an in-memory filesystem cannot reach: the
 // handling of the immutable inode flag (efivarfs marks variables immutable). On a real directory,
-// for every combination of wrapper configuration {plain, CheckImmutable, CheckImmutable+
-// UnsetImmutable} x file {absent, present, present and immutable} x APPEND_WRITE {off, on} x value
+// for every combination of wrapper configuration {plain, CheckImmutable, UnsetImmutable, both in
+// either order, one of them set twice} x file {absent, present, present and immutable} x APPEND_WRITE {off, on} x value
 // {shorter, longer than what is there}: an immutable file is only written after the flag was cleared
 // on request, the file is opened in append mode if and only if APPEND_WRITE is set (observed by
 // where the one buffer lands), and a refused write leaves the file as it was. Skipped with a note
@@ -62,7 +63,9 @@ func c11RealFS(c *hx.Ctx) {
 	defer func() { attributes.Efivars = old }()
 	g := unwire(ownerA)
 	n := 0
-	for _, cfg := range []string{"plain", "CheckImmutable", "CheckImmutable+UnsetImmutable"} {
+	// the two options are independent switches: the order in which they are set, and setting one twice,
+	// makes no difference
+	for _, cfg := range []string{"plain", "CheckImmutable", "CheckImmutable+UnsetImmutable", "UnsetImmutable", "UnsetImmutable+CheckImmutable", "CheckImmutable+UnsetImmutable+CheckImmutable"} {
 		for _, state := range []string{"absent", "present", "present and immutable"} {
 			for _, at := range []uint32{0x07, 0x47} {
 				for _, vl := range []int{3, 40} {
@@ -88,6 +91,12 @@ func c11RealFS(c *hx.Ctx) {
 						fs.CheckImmutable()
 					case "CheckImmutable+UnsetImmutable":
 						fs.CheckImmutable().UnsetImmutable()
+					case "UnsetImmutable":
+						fs.UnsetImmutable()
+					case "UnsetImmutable+CheckImmutable":
+						fs.UnsetImmutable().CheckImmutable()
+					case "CheckImmutable+UnsetImmutable+CheckImmutable":
+						fs.CheckImmutable().UnsetImmutable().CheckImmutable()
 					}
 					val := fill(vl, 0x35)
 					var werr error
@@ -103,7 +112,7 @@ func c11RealFS(c *hx.Ctx) {
 						c.Outcome("violation")
 						c.Violation("C11 write on a real directory (immutable-flag handling): "+what, d)
 					}
-					refuse := state == "present and immutable" && cfg != "CheckImmutable+UnsetImmutable"
+					refuse := state == "present and immutable" && !(strings.Contains(cfg, "CheckImmutable") && strings.Contains(cfg, "UnsetImmutable"))
 					switch {
 					case pn != nil:
 						bad("ends in " + pn.String())
